@@ -71,10 +71,12 @@ func ints(a []int) string {
 }
 
 type stepD struct {
-	bit    int
-	cb     string // "" or expression
-	cbArgs []int
-	optErr bool
+	bit     int
+	cb      string // "" or expression
+	cbArgs  []int
+	optErr  bool
+	fixed   bool // operand handed over as a plain value when the function value is built
+	atBuild bool // user function applied when the program value is built
 }
 
 type finalD struct {
@@ -89,6 +91,7 @@ type siteD struct {
 	steps       []stepD
 	final       *finalD
 	wantVal     int
+	fn          bool   // the library call returns a function value; exec applies it through t.run
 	exec        string // body of func(t *T)
 }
 
@@ -105,7 +108,11 @@ func chunk(b *bytes.Buffer) {
 
 func (s siteD) emit(b *bytes.Buffer) {
 	chunk(b)
-	fmt.Fprintf(b, "\treg(&site{Key: %q, Family: %q, N: %d, Monad: %s, WantVal: %d,\n", s.key, s.family, s.n, s.m.mconst, s.wantVal)
+	fnf := ""
+	if s.fn {
+		fnf = " Fn: true,"
+	}
+	fmt.Fprintf(b, "\treg(&site{Key: %q, Family: %q, N: %d, Monad: %s, WantVal: %d,%s\n", s.key, s.family, s.n, s.m.mconst, s.wantVal, fnf)
 	fmt.Fprintf(b, "\t\tSteps: []step{")
 	for i, st := range s.steps {
 		if i > 0 {
@@ -120,6 +127,12 @@ func (s siteD) emit(b *bytes.Buffer) {
 		}
 		if st.optErr {
 			b.WriteString(", OptErr: true")
+		}
+		if st.fixed {
+			b.WriteString(", Fixed: true")
+		}
+		if st.atBuild {
+			b.WriteString(", AtBuild: true")
 		}
 		b.WriteString("}")
 	}
@@ -136,6 +149,17 @@ func ops(m monad, n int) string {
 		s[i] = fmt.Sprintf("%s(t, %d, t.vals[%d])", m.V, i, i)
 	}
 	return strings.Join(s, ", ")
+}
+
+// fixedOp: one monadic operand handed to the builder of a function value. For the strict monads its failure
+// is decided when the function value is built; a StateT operand is a program that decides when it runs.
+func fixedOp(m monad) []stepD {
+	return []stepD{{bit: 0, fixed: m.pkg != "statet"}}
+}
+
+// applied renders "f := <builder>; t.run(func() { <res>(t, f<args>) })": the function value is kept and applied again.
+func applied(m monad, builder, args string) string {
+	return fmt.Sprintf("f := %s; t.run(func() { %s(t, f%s) })", builder, m.res, args)
 }
 
 func opSteps(n int) []stepD {
@@ -238,24 +262,24 @@ func genMonad(m monad) []byte {
 		if n > 1 {
 			name = fmt.Sprintf("LiftA%d", n)
 		}
-		add(siteD{key: p + "." + name, family: p + ".LiftAN", n: n, m: m, steps: opSteps(n), final: &finalD{seqIdx(n), -1}, wantVal: -1,
-			exec: fmt.Sprintf("%s(t, %s.%s%s(fn%d(t, idF, retInt))(%s))", m.res, p, name, m.tp, n, ops(m, n))})
+		add(siteD{key: p + "." + name, family: p + ".LiftAN", n: n, m: m, steps: opSteps(n), final: &finalD{seqIdx(n), -1}, wantVal: -1, fn: true,
+			exec: applied(m, fmt.Sprintf("%s.%s%s(fn%d(t, idF, retInt))", p, name, m.tp, n), "("+ops(m, n)+")")})
 		// FlatMapN
 		name = suffix("FlatMap", n)
 		add(siteD{key: p + "." + name, family: p + ".FlatMapN", n: n, m: m, steps: opSteps(n), final: &finalD{seqIdx(n), n}, wantVal: -1,
 			exec: fmt.Sprintf("%s(t, %s.%s(%s, fn%d(t, idF, %s(t, %d))))", m.res, p, name, ops(m, n), n, m.ret, n)})
 		// LiftMN
 		name = suffix("LiftM", n)
-		add(siteD{key: p + "." + name, family: p + ".LiftMN", n: n, m: m, steps: opSteps(n), final: &finalD{seqIdx(n), n}, wantVal: -1,
-			exec: fmt.Sprintf("%s(t, %s.%s(fn%d(t, idF, %s(t, %d)))(%s))", m.res, p, name, n, m.ret, n, ops(m, n))})
+		add(siteD{key: p + "." + name, family: p + ".LiftMN", n: n, m: m, steps: opSteps(n), final: &finalD{seqIdx(n), n}, wantVal: -1, fn: true,
+			exec: applied(m, fmt.Sprintf("%s.%s(fn%d(t, idF, %s(t, %d)))", p, name, n, m.ret, n), "("+ops(m, n)+")")})
 		// FlapN: one monadic operand holding a curried function, N plain arguments
 		name = suffix("Flap", n)
 		apply := ""
 		for i := 0; i < n; i++ {
 			apply += "(" + pv(i) + ")"
 		}
-		add(siteD{key: p + "." + name, family: p + ".FlapN", n: n, m: m, steps: opSteps(1), final: &finalD{pvIdx(n), -1}, wantVal: -1,
-			exec: fmt.Sprintf("%s(t, %s.%s(%s(t, 0, cur%d(t, idF)))%s)", m.res, p, name, m.V, n, apply)})
+		add(siteD{key: p + "." + name, family: p + ".FlapN", n: n, m: m, steps: fixedOp(m), final: &finalD{pvIdx(n), -1}, wantVal: -1, fn: true,
+			exec: applied(m, fmt.Sprintf("%s.%s(%s(t, 0, cur%d(t, idF)))", p, name, m.V, n), apply)})
 		// MethodN / FlatMethodN: Method1 takes a 2-argument function, Method2 and Method3 a 3-argument one, MethodK (K>=3) a K-argument one
 		fa := n
 		if n == 1 {
@@ -264,10 +288,10 @@ func genMonad(m monad) []byte {
 			fa = 3
 		}
 		margs := append([]int{0}, pvIdx(fa-1)...)
-		add(siteD{key: fmt.Sprintf("%s.Method%d", p, n), family: p + ".MethodN", n: n, m: m, steps: opSteps(1), final: &finalD{margs, -1}, wantVal: -1,
-			exec: fmt.Sprintf("%s(t, %s.Method%d(%s(t, 0, t.vals[0]), fn%d(t, idF, retInt))(%s))", m.res, p, n, m.V, fa, pvs(fa-1))})
-		add(siteD{key: fmt.Sprintf("%s.FlatMethod%d", p, n), family: p + ".FlatMethodN", n: n, m: m, steps: opSteps(1), final: &finalD{margs, 1}, wantVal: -1,
-			exec: fmt.Sprintf("%s(t, %s.FlatMethod%d(%s(t, 0, t.vals[0]), fn%d(t, idF, %s(t, 1)))(%s))", m.res, p, n, m.V, fa, m.ret, pvs(fa-1))})
+		add(siteD{key: fmt.Sprintf("%s.Method%d", p, n), family: p + ".MethodN", n: n, m: m, steps: fixedOp(m), final: &finalD{margs, -1}, wantVal: -1, fn: true,
+			exec: applied(m, fmt.Sprintf("%s.Method%d(%s(t, 0, t.vals[0]), fn%d(t, idF, retInt))", p, n, m.V, fa), "("+pvs(fa-1)+")")})
+		add(siteD{key: fmt.Sprintf("%s.FlatMethod%d", p, n), family: p + ".FlatMethodN", n: n, m: m, steps: fixedOp(m), final: &finalD{margs, 1}, wantVal: -1, fn: true,
+			exec: applied(m, fmt.Sprintf("%s.FlatMethod%d(%s(t, 0, t.vals[0]), fn%d(t, idF, %s(t, 1)))", p, n, m.V, fa, m.ret), "("+pvs(fa-1)+")")})
 	}
 	// Compose family: Kleisli chains
 	for _, c := range []struct {
@@ -281,11 +305,12 @@ func genMonad(m monad) []byte {
 			if k == 0 {
 				arg = []int{plainBase}
 			}
-			st = append(st, stepD{bit: k, cb: sup(k), cbArgs: arg})
+			// statet: the first Kleisli step is applied when the composed function is applied, the rest when the program runs
+			st = append(st, stepD{bit: k, cb: sup(k), cbArgs: arg, atBuild: k == 0 && m.pkg == "statet"})
 			fs = append(fs, fmt.Sprintf("fn1(t, %s, %s(t, %d))", sup(k), m.retV, k))
 		}
-		add(siteD{key: p + "." + c.name, family: p + ".ComposeN", n: c.k, m: m, steps: st, wantVal: c.k - 1,
-			exec: fmt.Sprintf("%s(t, %s.%s(%s)(%s))", m.res, p, c.name, strings.Join(fs, ", "), pv(0))})
+		add(siteD{key: p + "." + c.name, family: p + ".ComposeN", n: c.k, m: m, steps: st, wantVal: c.k - 1, fn: true,
+			exec: applied(m, fmt.Sprintf("%s.%s(%s)", p, c.name, strings.Join(fs, ", ")), "("+pv(0)+")")})
 	}
 	// Ap / ApFunc
 	add(siteD{key: p + ".Ap", family: p + ".Ap", n: 2, m: m, steps: opSteps(2), final: &finalD{[]int{1}, -1}, wantVal: -1,
@@ -305,21 +330,21 @@ func genMonad(m monad) []byte {
 		exec: fmt.Sprintf("a, _ := %s.UnZip(%s(t, 0, fp.Tuple2[int, int]{I1: t.vals[0], I2: t.vals[1]})); %s(t, a)", p, m.V, m.res)})
 	add(siteD{key: p + ".UnZip#2", family: p + ".UnZip", n: 2, m: m, steps: opSteps(1), wantVal: 1,
 		exec: fmt.Sprintf("_, a := %s.UnZip(%s(t, 0, fp.Tuple2[int, int]{I1: t.vals[0], I2: t.vals[1]})); %s(t, a)", p, m.V, m.res)})
-	add(siteD{key: p + ".With", family: p + ".With", n: 1, m: m, steps: opSteps(1), final: &finalD{[]int{plainBase, 0}, -1}, wantVal: -1,
-		exec: fmt.Sprintf("%s(t, %s.With(fn2(t, idF, retInt), %s(t, 0, t.vals[0]))(%s))", m.res, p, m.V, pv(0))})
-	add(siteD{key: p + ".FlapMap", family: p + ".FlapMap", n: 1, m: m, steps: opSteps(1), final: &finalD{[]int{0, plainBase}, -1}, wantVal: -1,
-		exec: fmt.Sprintf("%s(t, %s.FlapMap(fn2(t, idF, retInt), %s(t, 0, t.vals[0]))(%s))", m.res, p, m.V, pv(0))})
-	add(siteD{key: p + ".FlatFlapMap", family: p + ".FlatFlapMap", n: 1, m: m, steps: opSteps(1), final: &finalD{[]int{0, plainBase}, 1}, wantVal: -1,
-		exec: fmt.Sprintf("%s(t, %s.FlatFlapMap(fn2(t, idF, %s(t, 1)), %s(t, 0, t.vals[0]))(%s))", m.res, p, m.ret, m.V, pv(0))})
+	add(siteD{key: p + ".With", family: p + ".With", n: 1, m: m, steps: fixedOp(m), final: &finalD{[]int{plainBase, 0}, -1}, wantVal: -1, fn: true,
+		exec: applied(m, fmt.Sprintf("%s.With(fn2(t, idF, retInt), %s(t, 0, t.vals[0]))", p, m.V), "("+pv(0)+")")})
+	add(siteD{key: p + ".FlapMap", family: p + ".FlapMap", n: 1, m: m, steps: fixedOp(m), final: &finalD{[]int{0, plainBase}, -1}, wantVal: -1, fn: true,
+		exec: applied(m, fmt.Sprintf("%s.FlapMap(fn2(t, idF, retInt), %s(t, 0, t.vals[0]))", p, m.V), "("+pv(0)+")")})
+	add(siteD{key: p + ".FlatFlapMap", family: p + ".FlatFlapMap", n: 1, m: m, steps: fixedOp(m), final: &finalD{[]int{0, plainBase}, 1}, wantVal: -1, fn: true,
+		exec: applied(m, fmt.Sprintf("%s.FlatFlapMap(fn2(t, idF, %s(t, 1)), %s(t, 0, t.vals[0]))", p, m.ret, m.V), "("+pv(0)+")")})
 	if m.pkg == "try" {
 		// try.FuncN / UnitN / PureN: wrappers that turn (value, error) into a Try
 		for n := 1; n <= 9; n++ {
-			add(siteD{key: fmt.Sprintf("try.Func%d", n), family: "try.FuncN", n: n, m: m, steps: []stepD{{bit: 0, cb: sup(0), cbArgs: pvIdx(n)}}, wantVal: 0,
-				exec: fmt.Sprintf("resTry(t, try.Func%d(fp%d(t, %s, retPair(t, 0)))(%s))", n, n, sup(0), pvs(n))})
-			add(siteD{key: fmt.Sprintf("try.Unit%d", n), family: "try.UnitN", n: n, m: m, steps: []stepD{{bit: 0, cb: sup(0), cbArgs: pvIdx(n)}}, wantVal: -1,
-				exec: fmt.Sprintf("resTry(t, try.Unit%d(fn%d(t, %s, retError(t, 0)))(%s))", n, n, sup(0), pvs(n))})
-			add(siteD{key: fmt.Sprintf("try.Pure%d", n), family: "try.PureN", n: n, m: m, final: &finalD{pvIdx(n), -1}, wantVal: -1,
-				exec: fmt.Sprintf("resTry(t, try.Pure%d(fn%d(t, idF, retInt))(%s))", n, n, pvs(n))})
+			add(siteD{key: fmt.Sprintf("try.Func%d", n), family: "try.FuncN", n: n, m: m, steps: []stepD{{bit: 0, cb: sup(0), cbArgs: pvIdx(n)}}, wantVal: 0, fn: true,
+				exec: applied(m, fmt.Sprintf("try.Func%d(fp%d(t, %s, retPair(t, 0)))", n, n, sup(0)), "("+pvs(n)+")")})
+			add(siteD{key: fmt.Sprintf("try.Unit%d", n), family: "try.UnitN", n: n, m: m, steps: []stepD{{bit: 0, cb: sup(0), cbArgs: pvIdx(n)}}, wantVal: -1, fn: true,
+				exec: applied(m, fmt.Sprintf("try.Unit%d(fn%d(t, %s, retError(t, 0)))", n, n, sup(0)), "("+pvs(n)+")")})
+			add(siteD{key: fmt.Sprintf("try.Pure%d", n), family: "try.PureN", n: n, m: m, final: &finalD{pvIdx(n), -1}, wantVal: -1, fn: true,
+				exec: applied(m, fmt.Sprintf("try.Pure%d(fn%d(t, idF, retInt))", n, n), "("+pvs(n)+")")})
 		}
 	}
 	for _, s := range sites {
@@ -327,21 +352,25 @@ func genMonad(m monad) []byte {
 	}
 	// sequence-shaped families: positions are elements, length is a run-time parameter (0..8 exhaustively)
 	x := map[string]string{"try": "Try", "option": "Opt", "either": "Eit", "statet": "St"}[m.pkg]
-	trav := func(name string, operand, cb bool, call string) {
+	trav := func(name, flags, res, body string) {
 		chunk(&b)
-		fmt.Fprintf(&b, "\tregTrav(%q, %s, %v, %v, func(t *T, L int) { %s(t, %s.%s) })\n", p+"."+name, m.mconst, operand, cb, m.res, p, call)
+		fmt.Fprintf(&b, "\tregTrav(%q, %s, %s, %s, func(t *T, L int) { %s })\n", p+"."+name, m.mconst, flags, res, body)
 	}
-	trav("Traverse", false, true, fmt.Sprintf("Traverse(t.iter(0, L), trav%s(t))", x))
-	trav("TraverseSeq", false, true, fmt.Sprintf("TraverseSeq(fp.Seq[int](t.elems(0, L)), trav%s(t))", x))
-	trav("TraverseSlice", false, true, fmt.Sprintf("TraverseSlice(t.elems(0, L), trav%s(t))", x))
-	trav("TraverseFunc", false, true, fmt.Sprintf("TraverseFunc(trav%s(t))(t.iter(0, L))", x))
-	trav("TraverseSeqFunc", false, true, fmt.Sprintf("TraverseSeqFunc(trav%s(t))(fp.Seq[int](t.elems(0, L)))", x))
-	trav("TraverseSliceFunc", false, true, fmt.Sprintf("TraverseSliceFunc(trav%s(t))(t.elems(0, L))", x))
-	trav("FlatMapTraverseSeq", true, true, fmt.Sprintf("FlatMapTraverseSeq(%s(t, 0, fp.Seq[int](t.elems(1, L))), trav%s(t))", m.V, x))
-	trav("FlatMapTraverseSlice", true, true, fmt.Sprintf("FlatMapTraverseSlice(%s(t, 0, t.elems(1, L)), trav%s(t))", m.V, x))
-	trav("Sequence", false, false, fmt.Sprintf("Sequence(seq%s(t, 0, L))", x))
-	trav("SequenceIterator", false, false, fmt.Sprintf("SequenceIterator(fp.IteratorOfSeq(seq%s(t, 0, L)))", x))
-	trav("FoldM", false, true, fmt.Sprintf("FoldM(t.iter(0, L), 0, fold%s(t))", x))
+	call := func(expr string) string { return fmt.Sprintf("%s(t, %s.%s)", m.res, p, expr) }
+	fnCall := func(builder, arg string) string { return applied(m, p+"."+builder, "("+arg+")") }
+	trav("Traverse", "tvCb", "resPlus7", call(fmt.Sprintf("Traverse(t.iter(0, L), trav%s(t))", x)))
+	trav("TraverseSeq", "tvCb", "resPlus7", call(fmt.Sprintf("TraverseSeq(fp.Seq[int](t.elems(0, L)), trav%s(t))", x)))
+	trav("TraverseSlice", "tvCb", "resPlus7", call(fmt.Sprintf("TraverseSlice(t.elems(0, L), trav%s(t))", x)))
+	trav("TraverseFunc", "tvCb|tvFn", "resPlus7", fnCall(fmt.Sprintf("TraverseFunc(trav%s(t))", x), "t.iter(0, L)"))
+	trav("TraverseSeqFunc", "tvCb|tvFn", "resPlus7", fnCall(fmt.Sprintf("TraverseSeqFunc(trav%s(t))", x), "fp.Seq[int](t.elems(0, L))"))
+	trav("TraverseSliceFunc", "tvCb|tvFn", "resPlus7", fnCall(fmt.Sprintf("TraverseSliceFunc(trav%s(t))", x), "t.elems(0, L)"))
+	trav("FlatMapTraverseSeq", "tvOperand|tvCb", "resPlus7", call(fmt.Sprintf("FlatMapTraverseSeq(%s(t, 0, fp.Seq[int](t.elems(1, L))), trav%s(t))", m.V, x)))
+	trav("FlatMapTraverseSlice", "tvOperand|tvCb", "resPlus7", call(fmt.Sprintf("FlatMapTraverseSlice(%s(t, 0, t.elems(1, L)), trav%s(t))", m.V, x)))
+	trav("MapSeqLift", "tvOperand|tvCb|tvPure", "resPlus7", call(fmt.Sprintf("MapSeqLift(%s(t, 0, fp.Seq[int](t.elems(1, L))), travPure(t))", m.V)))
+	trav("MapSliceLift", "tvOperand|tvCb|tvPure", "resPlus7", call(fmt.Sprintf("MapSliceLift(%s(t, 0, t.elems(1, L)), travPure(t))", m.V)))
+	trav("Sequence", "0", "resVals", call(fmt.Sprintf("Sequence(seq%s(t, 0, L))", x)))
+	trav("SequenceIterator", "0", "resVals", call(fmt.Sprintf("SequenceIterator(fp.IteratorOfSeq(seq%s(t, 0, L)))", x)))
+	trav("FoldM", "tvCb", "resSum", call(fmt.Sprintf("FoldM(t.iter(0, L), 0, fold%s(t))", x)))
 	b.WriteString("}\n")
 	return b.Bytes()
 }
@@ -469,8 +498,8 @@ func genFuture() []byte {
 	b.WriteString("import \"github.com/csgura/fp/future\"\n\nfunc init() {\n")
 	for n := 1; n <= 9; n++ {
 		chunk(&b)
-		fmt.Fprintf(&b, "\tregPanicSite(\"future.Func%d\", \"future.FuncN\", %d, flagVal|flagErr|flagFut, func(t *T) { resFut(t, future.Func%d(fp%d(t, idF, t.behavePair), t.exec)(%s)) })\n", n, n, n, n, pvs(n))
-		fmt.Fprintf(&b, "\tregPanicSite(\"future.Unit%d\", \"future.UnitN\", %d, flagErr|flagFut, func(t *T) { resFut(t, future.Unit%d(fn%d(t, idF, t.behaveErr), t.exec)(%s)) })\n", n, n, n, n, pvs(n))
+		fmt.Fprintf(&b, "\tregPanicSite(\"future.Func%d\", \"future.FuncN\", %d, flagVal|flagErr|flagFut, func(t *T) { f := future.Func%d(fp%d(t, idF, t.behavePair), t.exec); t.run(func() { resFut(t, f(%s)) }) })\n", n, n, n, n, pvs(n))
+		fmt.Fprintf(&b, "\tregPanicSite(\"future.Unit%d\", \"future.UnitN\", %d, flagErr|flagFut, func(t *T) { f := future.Unit%d(fn%d(t, idF, t.behaveErr), t.exec); t.run(func() { resFut(t, f(%s)) }) })\n", n, n, n, n, pvs(n))
 	}
 	b.WriteString("}\n")
 	return b.Bytes()
